@@ -194,8 +194,8 @@ __attribute__((constructor)) static void procsim_init(void) {
                     if (!strcmp(b, "-")) { if (r2 == R_INPUT) fdrole[0] = R_INPUT; else fdrole[1] = r2; }
                 }
             } else if (sscanf(line, "rand %63s", a) == 1) { rand_seed = strtoull(a, NULL, 0); rand_state = rand_seed; }
-            else if (sscanf(line, "time %63s", a) == 1) { plan_time = strtoll(a, NULL, 0); have_time = 1; }
             else if (sscanf(line, "timestep %63s", a) == 1) { time_step = strtoll(a, NULL, 0); if (time_step < 1) time_step = 1; }
+            else if (sscanf(line, "time %63s", a) == 1) { plan_time = strtoll(a, NULL, 0); have_time = 1; }
             else if (sscanf(line, "pid %63s", a) == 1) { plan_pid = strtol(a, NULL, 0); have_pid = 1; }
             else if (sscanf(line, "host %63s", a) == 1) { snprintf(plan_host, sizeof plan_host, "%s", a); have_host = 1; }
             else if (sscanf(line, "heappad %63s", a) == 1) { heappad = strtoull(a, NULL, 0); }
